@@ -64,6 +64,11 @@ func debugScan(args []string) int {
 		return 2
 	}
 	fmt.Printf("cuts=%d entry states=%d locals=%d\n", len(se.order), len(se.entry), len(se.locals))
+	if len(args) > 0 && args[0] == "states" {
+		fmt.Println("entry:", w.scanEntryStates())
+		fmt.Println("rest:", w.scanRestStates())
+		return 0
+	}
 	if len(args) > 1 && args[0] == "only" {
 		// one region, all candidates assumed: which edge obligations fail?
 		for _, c := range se.order {
